@@ -20,6 +20,7 @@ import (
 	"go/constant"
 	"go/token"
 	"go/types"
+	"math"
 	"strings"
 )
 
@@ -484,6 +485,9 @@ func featOf(cd cand) (*feat, *verdict) {
 			f.x = mv.operand(e)
 			f.res = f.x
 			mv.tags(e, f.has)
+			if f.T != "" && mv.benign(e, f.T) {
+				f.has["benign-typed-site"] = true
+			}
 		}
 		return f, mv
 	case "arraydecl":
@@ -530,7 +534,9 @@ func featOf(cd cand) (*feat, *verdict) {
 			if id, ok := inForce.Type.(*ast.Ident); ok {
 				f.T = canonType(id.Name)
 			}
+			benign := f.T != "" && !f.iota && !f.implic
 			for i, val := range inForce.Values {
+				benign = benign && mv.benign(val, f.T)
 				mv.tags(val, f.has) // every expression of the spec: one bad neighbour spoils the spec
 				if i == cd.ni || cd.ni < 0 && i == 0 {
 					f.x = mv.operand(val)
@@ -539,6 +545,9 @@ func featOf(cd cand) (*feat, *verdict) {
 						f.x.val = nil
 					}
 				}
+			}
+			if benign {
+				f.has["benign-typed-site"] = true
 			}
 			break
 		}
@@ -952,6 +961,81 @@ func (v *verdict) tags(e ast.Expr, has map[string]bool) {
 		}
 		return true
 	})
+}
+
+// benign reports that pushing the declared type T into the operands of the
+// untyped constant expression e cannot change its value: every sub-expression
+// has an exact value which T represents exactly (an integer in range for an
+// integer T; an exactly representable float for a float or complex T, and then
+// no operator restricted to integers). Folding such an expression operand by
+// operand in T gives the value of the exact expression converted once.
+func (v *verdict) benign(e ast.Expr, T string) bool {
+	if T == "bool" || T == "string" {
+		return true
+	}
+	if !isIntT(T) && !isFloatT(T) && !isComplexT(T) {
+		return false
+	}
+	ok := true
+	ast.Inspect(e, func(n ast.Node) bool {
+		x, isExpr := n.(ast.Expr)
+		if !isExpr || !ok {
+			return ok
+		}
+		if !isIntT(T) {
+			switch y := x.(type) {
+			case *ast.BinaryExpr:
+				switch y.Op {
+				case token.REM, token.AND, token.OR, token.XOR, token.AND_NOT, token.SHL, token.SHR:
+					ok = false
+				}
+			case *ast.UnaryExpr:
+				if y.Op == token.XOR {
+					ok = false
+				}
+			}
+		}
+		tv, found := v.info.Types[x]
+		if !found || tv.Value == nil || !fitsExactly(tv.Value, T) {
+			ok = false
+		}
+		return ok
+	})
+	return ok
+}
+
+func fitsExactly(val constant.Value, T string) bool {
+	switch val.Kind() {
+	case constant.Int, constant.Float:
+	case constant.Complex:
+		if !isComplexT(T) {
+			return false
+		}
+		part := map[string]string{"complex64": "float32", "complex128": "float64"}[T]
+		return fitsExactly(constant.Real(val), part) && fitsExactly(constant.Imag(val), part)
+	default:
+		return false
+	}
+	switch {
+	case isIntT(T):
+		i := constant.ToInt(val)
+		if i.Kind() != constant.Int {
+			return false
+		}
+		b := bigOf(i)
+		if b == nil {
+			return false
+		}
+		min, max := intRange(T)
+		return b.Cmp(min) >= 0 && b.Cmp(max) <= 0
+	case T == "float32" || T == "complex64":
+		f, exact := constant.Float32Val(val)
+		return exact && !math.IsInf(float64(f), 0) && !(f == 0 && constant.Sign(val) != 0)
+	case T == "float64" || T == "complex128":
+		f, exact := constant.Float64Val(val)
+		return exact && !math.IsInf(f, 0) && !(f == 0 && constant.Sign(val) != 0)
+	}
+	return false
 }
 
 // floatish: the expression is syntactically a float constant (a float
